@@ -91,6 +91,81 @@ def c06_spec_filter_override_false(violation, m):
     return PROP.check_law("filter_contains", rest)[0]
 
 
+# ---------------------------------------------------------------- C03 / C04
+def _c03_tokens(text):
+    """what ``_compare_compatible`` derives its prefix from: the raw text split at '!' and '.', with
+    ``<digits><a|b|c|rc><digits>`` items split in two"""
+    import re
+    epoch, _, rest = text.rpartition("!")
+    toks = [epoch or "0"]
+    for item in rest.split("."):
+        m = re.fullmatch(r"([0-9]+)((?:a|b|c|rc)[0-9]+)", item)
+        toks.extend(m.groups() if m else [item])
+    return toks
+
+
+def _struct_of(text):
+    """structure of a version text as the library reads it (used only to classify string-level witnesses)"""
+    from packaging.version import Version
+    v = Version(text)
+    loc = None if v.local is None else [int(x) if x.isdigit() else x for x in v.local.split(".")]
+    return {"epoch": v.epoch, "release": list(v.release), "pre": v.pre, "post": v.post, "dev": v.dev, "local": loc}
+
+
+@matcher("compat_prefix_from_raw_spelling")
+def compat_prefix_from_raw_spelling(violation, m):
+    """`~=V` clauses whose *raw* text, cut at the first segment starting with dev/a/b/rc/post, minus its last item,
+    is not V's epoch and release minus the last component (suffix spelled c/pre/preview/rev/r/upper case/`a.1`, or a
+    leading `v`): only there does the prefix match of `_compare_compatible` use the wrong prefix."""
+    import itertools
+    from gen import specrel as R
+    law, inp = violation["law"], violation["input"]
+    if law == "contains_vs_admits":
+        if inp.get("op") != "~=":
+            return False
+        from props import C03
+        text = C03.spelled(inp)[0].strip()[2:].strip()
+    elif law == "compat_is_ge_and_prefix" or (law in ("equal_candidates_same_answer", "in_operator_final_candidate")
+                                              and inp.get("op") == "~="):
+        if law == "in_operator_final_candidate":
+            from props import C03
+            text = C03.spelled(inp)[0].strip()[2:].strip()
+        else:
+            from props import C04
+            text = C04.compat_text(inp)
+    elif law == "contains_vs_spec_strings":
+        if not inp["clause"].strip().startswith("~="):
+            return False
+        text = inp["clause"].strip()[2:].strip()
+        inp = dict(inp, v=_struct_of(text))
+    else:
+        return False
+    v = R.norm(inp["v"])
+    toks = _c03_tokens(text)
+    not_suffix = lambda s: not any(s.startswith(p) for p in ("dev", "a", "b", "rc", "post"))
+    pref = list(itertools.takewhile(not_suffix, toks))[:-1]
+    want = [v["epoch"]] + list(v["release"][:-1])
+    good = all(t.isascii() and t.isdigit() for t in pref) and [int(t) for t in pref] == want
+    return not good
+
+
+@matcher("gt_rejects_local_of_another_version")
+def gt_rejects_local_of_another_version(violation, m):
+    """`>V` with a candidate that carries a local label, has V's release, lies above V and is *not* V itself plus
+    a label (nor an excluded post-release): the local-version exclusion compares base versions only."""
+    from gen import specrel as R
+    law, inp = violation["law"], violation["input"]
+    if law == "contains_vs_spec_strings":
+        cl = inp["clause"].strip()
+        if not cl.startswith(">") or cl.startswith(">="):
+            return False
+        inp = {"op": ">", "v": _struct_of(cl[1:]), "c": _struct_of(inp["cand"])}
+    if law not in ("contains_vs_admits", "local_label_blind", "contains_vs_spec_strings",
+                   "in_operator_final_candidate") or inp.get("op") != ">":
+        return False
+    v, c = R.norm(inp["v"]), R.norm(inp["c"])
+    return c["local"] is not None and R.same_release(c, v) and R.admits(">", v, False, c)
+
 @matcher("numeric_component_beyond_int_str_limit")
 def _beyond_int_limit(violation, m):
     """C02/C11/C12: the witness is a version with one numeric component longer than the running interpreter's
@@ -108,4 +183,27 @@ def _beyond_int_limit(violation, m):
         import re
 
         return any(len(r) > lim for r in re.findall(r"[0-9]+", s))
+    return False
+
+
+@matcher("arbitrary_text_not_a_version")
+def arbitrary_text_not_a_version(violation, m):
+    """`===S` with S not a version, default pre-release setting: `.prereleases` parses S"""
+    from packaging.version import InvalidVersion, Version
+    law, inp = violation["law"], violation["input"]
+    if law == "in_operator_final_candidate":
+        if inp.get("op") != "===":
+            return False
+        text = inp["raw"]
+    elif law == "contains_vs_spec_strings" and inp.get("mode") == "in":
+        cl = inp["clause"].strip()
+        if not cl.startswith("==="):
+            return False
+        text = cl[3:].strip()
+    else:
+        return False
+    try:
+        Version(text)
+    except InvalidVersion:
+        return True
     return False
